@@ -369,7 +369,7 @@ func applyReg(g *lua.VerifRegistry, o ROp) (status, ret string) {
 			status = g.ForceResize(g.Top() + 1)
 		}
 		if status == "" {
-			status = g.Push(lua.LString("msg"))
+			status = g.PushRaw(lua.LString("msg"))
 		}
 	case "move":
 		var v lua.LValue
